@@ -8,5 +8,7 @@ Spec == Init /\ [][Next]_<<c, done>>
 \* an accepted INDEFINITE iterator never caches and loops once
 \* the verdict never depends on whether the sizes fit the terminal
 FitsIrrelevant == Verdict(c) = Verdict([c EXCEPT !.fits = "yes"])
+\* unusable render data is rejected whoever owns it
+OwnershipIrrelevant == Verdict(c) = Verdict([c EXCEPT !.finalize = TRUE])
 IndefiniteSane == (Verdict(c) = "ok" /\ c.frames = 0) => (Loop(c) = 1 /\ ~Cached(c))
 =============================================================================
